@@ -98,6 +98,7 @@ partial def toExpr : SExp → Option Expr
   | .list [.atom "lam", .list (.atom "params" :: ps), body] => do some (.lam (← atoms ps) (← toExpr body))
   | .list [.atom "try", a] => do some (.try_ (← toExpr a))
   | .list [.atom "unwrap", a] => do some (.unwrap (← toExpr a))
+  | .list [.atom "panic", a] => do some (.panic (← toExpr a))
   | _ => none
 partial def toStmt : SExp → Option Stmt
   | .list [.atom "let", p, e] => do some (.let_ (← toPat p) (← toExpr e))
